@@ -88,3 +88,40 @@ package tls
 //@ at senum assert [enum-value] senum.x == rve.res0
 //@ at rvs assert [length-prefix-read-at-offset] rvs.data == data[initOffset:] && rvs.info == info
 //@ at mk assert [allocation-no-larger-than-remaining-input] 0 <= mk.len && mk.len <= len(data) - initOffset && mk.len <= mk.cap && mk.cap <= len(data) - initOffset
+
+//@ func generateHash
+//@ props C05
+//@ pure
+//@ site New#1 as nw
+//@ site Write#1 as wr
+//@ site Sum#1 as sm
+//@ ensures [exactly-the-six-tls-hashes-are-supported] (result2 == nil ==> MD5 <= algo && algo <= SHA512) && ((algo < MD5 || algo > SHA512) ==> result2 != nil && !nw.called)
+//@ ensures [declared-hash-selects-the-crypto-hash] result2 == nil ==> (algo == MD5 ==> result1 == crypto.MD5) && (algo == SHA1 ==> result1 == crypto.SHA1) && (algo == SHA224 ==> result1 == crypto.SHA224) && (algo == SHA256 ==> result1 == crypto.SHA256) && (algo == SHA384 ==> result1 == crypto.SHA384) && (algo == SHA512 ==> result1 == crypto.SHA512)
+//@ ensures [digest-is-of-exactly-the-data-under-that-hash] result2 == nil ==> nw.called && nw.h == result1 && wr.called && wr.recv == nw.res && wr.p == data && sm.called && sm.recv == nw.res && len(sm.b) == 0 && result0 == sm.res
+
+//@ func VerifySignature
+//@ props C05 C12
+//@ pure
+//@ site generateHash#1 as gh
+//@ site rsa.VerifyPKCS1v15#1 as rv
+//@ site asn1.Unmarshal#1 as du
+//@ site dsa.Verify#1 as dv
+//@ site asn1.Unmarshal#2 as eu
+//@ site ecdsa.Verify#1 as ev
+//@ site Sign#1 as dsr
+//@ site Sign#2 as dss
+//@ site Sign#3 as esr
+//@ site Sign#4 as ess
+//@ requires validKey(pubKey)
+//@ ensures [unsupported-hash-is-an-error] gh.res2 != nil ==> result != nil
+//@ ensures [unknown-signature-algorithm-is-an-error] sig.Algorithm.Signature != RSA && sig.Algorithm.Signature != DSA && sig.Algorithm.Signature != ECDSA ==> result != nil
+//@ ensures [algorithm-and-key-type-must-match] (sig.Algorithm.Signature == RSA && typeof(pubKey) != *rsa.PublicKey) || (sig.Algorithm.Signature == DSA && typeof(pubKey) != *dsa.PublicKey) || (sig.Algorithm.Signature == ECDSA && typeof(pubKey) != *ecdsa.PublicKey) ==> result != nil && !rv.called && !dv.called && !ev.called
+//@ ensures [rsa-passes-exactly-when-pkcs1v15-verifies] gh.res2 == nil && sig.Algorithm.Signature == RSA && typeof(pubKey) == *rsa.PublicKey ==> rv.called && (result == nil <==> rv.res == nil)
+//@ ensures [dsa-passes-exactly-when-a-positive-der-pair-verifies] gh.res2 == nil && sig.Algorithm.Signature == DSA && typeof(pubKey) == *dsa.PublicKey ==> (result == nil <==> du.res1 == nil && dsr.called && dsr.res > 0 && dss.called && dss.res > 0 && dv.called && dv.res)
+//@ ensures [ecdsa-passes-exactly-when-a-positive-der-pair-verifies] gh.res2 == nil && sig.Algorithm.Signature == ECDSA && typeof(pubKey) == *ecdsa.PublicKey ==> (result == nil <==> eu.res1 == nil && esr.called && esr.res > 0 && ess.called && ess.res > 0 && ev.called && ev.res)
+//@ at gh assert [digest-of-the-data-under-the-declared-hash] gh.algo == sig.Algorithm.Hash && gh.data == data
+//@ at rv assert [rsa-over-that-digest-key-and-signature] rv.pub == as(pubKey, *rsa.PublicKey) && rv.hash == gh.res1 && rv.hashed == gh.res0 && rv.sig == sig.Signature
+//@ at du assert [dsa-value-is-der-decoded-from-the-signature] du.b == sig.Signature
+//@ at dv assert [dsa-over-that-digest-key-and-decoded-pair] dv.pub == as(pubKey, *dsa.PublicKey) && dv.hash == gh.res0 && dv.r == dsaSig.R && dv.s == dsaSig.S && dsr.x == dsaSig.R && dss.x == dsaSig.S
+//@ at eu assert [ecdsa-value-is-der-decoded-from-the-signature] eu.b == sig.Signature
+//@ at ev assert [ecdsa-over-that-digest-key-and-decoded-pair] ev.pub == as(pubKey, *ecdsa.PublicKey) && ev.hash == gh.res0 && ev.r == ecdsaSig.R && ev.s == ecdsaSig.S && esr.x == ecdsaSig.R && ess.x == ecdsaSig.S
